@@ -82,8 +82,37 @@ def generate(rng, tier):
         prober.append({"op": "avail", "on": "L%d" % i})
         prober.append({"op": "lock", "on": "L%d" % i, "body": [{"op": "avail", "on": "L%d" % i}]})
     actors.append({"name": "zprobe", "after": 4096, "ops": prober})
-    return {"property": ID, "scenario": {"resources": resources, "actors": actors},
+    scenario = {"resources": resources, "actors": actors}
+    if rng.random() < 0.12:
+        scenario["reuse_objects"] = True      # the program runs twice around the same Lock objects
+    return {"property": ID, "scenario": scenario,
             "plan": [], "config": {"waitq": rng.choice(["heap", "sd"])}}
+
+
+
+def run_case(case):
+    """One run - or, for `repeat` cases, two runs of the same program (same faults) around the same
+    Lock objects: a replication must find them as idle as the first run did."""
+    import sys
+    from ..runner import run_one
+    from ..world import SHARED_CONDITIONS
+    P = sys.modules[__name__]
+    if not case["scenario"].get("reuse_objects"):
+        return run_one(P, case)
+    SHARED_CONDITIONS.clear()
+    try:
+        first = run_one(P, case)
+        if first.violations:
+            return first
+        second = run_one(P, case)
+        for violation in second.violations:
+            violation["msg"] = "second run around the same objects: " + violation["msg"]
+        second.ticks += first.ticks
+        second.stats = dict(second.stats or {})
+        second.stats["probe.second-runs-with-reused-objects"] = 1
+        return second
+    finally:
+        SHARED_CONDITIONS.clear()
 
 
 def explore(case, base, rng, tier, one):
